@@ -18,7 +18,7 @@ RULE = ('cases = TT tensors / TT matrices of order 1..6, f32/f64/c64/c128, obtai
         'storage ranges, and after an in-place resizing set_core on either of the two the other keeps its metadata, cores and dense value; the others have the same dense value (converted dtype for to()). distinct = (source, op, structure, dtype); all non-trivial.')
 ASSUMPTIONS = ['the unpickling policy is whatever the installed torch enforces (weights_only default) - that is the environment users have']
 REQUIRED_REACH = ['_extras:save', '_extras:load', '_tt_base:TT.clone', '_tt_base:TT.detach', '_tt_base:TT.cpu', '_tt_base:TT.to', '_tt_base:TT.numpy']
-REQUIRED_COUNTS = {'op:saveload': 1, 'op:clone': 1, 'clone_independence_histories': 20, 'copy_after_inplace_write_histories': 50, 'op:detach': 1, 'op:cpu': 1, 'op:to': 1, 'op:numpy': 1, 'source:svd': 1, 'source:slice': 1, 'source:transpose': 1,
+REQUIRED_COUNTS = {'op:saveload': 1, 'op:clone': 1, 'clone_independence_histories': 20, 'copy_after_inplace_write_histories': 50, 'op:detach': 1, 'op:cpu': 1, 'op:to': 1, 'to-form:positional': 1, 'to-form:device=,dtype=': 1, 'op:numpy': 1, 'source:svd': 1, 'source:slice': 1, 'source:transpose': 1,
                    'source:round': 1, 'source:buffer': 5, 'loaded_cores_bit_identical': 10, 'file_rewritten_after_load': 5}
 SOURCES = ['cores', 'svd', 'svd_ttm', 'slice', 'transpose', 'conj', 'round', 'sum', 'buffer', 'signed-zeros']
 OPS = ['saveload', 'clone', 'detach', 'detach_tracked', 'cpu', 'to', 'numpy']
@@ -215,7 +215,12 @@ def run_case(case, ctx):
         tdt = dn.dtype_of(case['to_dtype'])
         if gens.is_complex(x.cores[0].dtype) and not gens.is_complex(tdt):
             tdt = torch.complex64 if tdt == torch.float32 else torch.complex128     # complex->real casts discard data: not a copy
-        y = ctx.lib('to', lambda t: t.to(dtype=tdt), x)
+        # the call forms the signature to(device=None, dtype=None) allows: dtype alone, device and dtype by keyword, both positionally, device as a string
+        form = ['dtype=', 'device=,dtype=', 'positional', "device='cpu',dtype="][case['seed'] % 4]
+        ctx.count('to-form:' + form)
+        cpu = torch.device('cpu')
+        y = ctx.lib('to', {'dtype=': lambda t: t.to(dtype=tdt), 'device=,dtype=': lambda t: t.to(device=cpu, dtype=tdt), 'positional': lambda t: t.to(cpu, tdt),
+                           "device='cpu',dtype=": lambda t: t.to(dtype=tdt, device='cpu')}[form], x)
         if _bad(ctx, key, what, y):
             return
         if any(c.dtype != tdt for c in y.cores):
@@ -237,7 +242,7 @@ def run_case(case, ctx):
             ctx.viol(key + '/clause=shape', '%s: numpy shape %s, dense shape %s' % (what, list(yt.shape), list(ref.shape)))
             return
         err = dn.fro(dn.to_up(yt).to(ref.dtype) - ref)
-        if err > 1e3 * u * dn.s_rep(x):
+        if not err <= 1e3 * u * dn.s_rep(x):
             ctx.viol(key + '/clause=value', '%s: err %.3e' % (what, err))
     # history for every copy operation: the caller updates a core tensor of the operand in place (an optimiser step); a copy made AFTERWARDS must show the
     # new value (nothing may be remembered from the first call), and - for clone - the copy made BEFORE must not have moved
